@@ -172,7 +172,7 @@ func clip(b []byte) []byte {
 
 // C14 builds the check for property C14.
 func C14() *sim.Check {
-	random := &sim.Batch{Name: "streams", Quick: 400_000, Thorough: 12_000_000}
+	random := &sim.Batch{Name: "streams", Quick: 4_000_000, Thorough: 120_000_000}
 	random.Run = func(c *sim.RunCtx) *sim.Outcome {
 		t := c.T
 		p, an := gen.GenPFB(t, 6, 300, gen.PFBShortBinary, gen.PFBShortText, gen.PFBBadHeader, gen.PFBPartialHeader)
